@@ -171,7 +171,9 @@ class CacheStore(object):
                 raise
 
         with fd:
-            if not self._cache_is_valid(store_filename, filename):
+            # Check the freshness of the entry that was actually opened; by now
+            # another process may have moved a newer entry to store_filename.
+            if os.fstat(fd.fileno()).st_mtime < os.stat(filename).st_mtime:
                 return None
             try:
                 data = pickle.load(fd)
